@@ -7,7 +7,32 @@ namespace Ebv.C23
 open Ebv.Parallel Ebv.Consts
 
 /-- no injected environment fault (netlink attach works) -/
-def NoFault (cfgs : List Cfg) : Prop := ∀ c ∈ cfgs, c.attachFails = false
+def NoFault (cfgs : List Cfg) : Prop := cfgs.all (fun c => !c.attachFails) = true
+
+instance (cfgs : List Cfg) : Decidable (NoFault cfgs) := by unfold NoFault; infer_instance
+
+/-! ### frame lemmas -/
+
+@[simp] theorem setP_len (s : Sys) (i : Nat) (p : Proc) : (setP s i p).procs.length = s.procs.length := by
+  simp [setP]
+@[simp] theorem setP_lockdir (s : Sys) (i : Nat) (p : Proc) : (setP s i p).lockdir = s.lockdir := rfl
+@[simp] theorem setP_pin (s : Sys) (i : Nat) (p : Proc) : (setP s i p).pin = s.pin := rfl
+@[simp] theorem setP_attached (s : Sys) (i : Nat) (p : Proc) : (setP s i p).attached = s.attached := rfl
+@[simp] theorem setP_fm (s : Sys) (i : Nat) (p : Proc) : (setP s i p).fm = s.fm := rfl
+@[simp] theorem setP_fmLock (s : Sys) (i : Nat) (p : Proc) : (setP s i p).fmLock = s.fmLock := rfl
+@[simp] theorem setP_mbx (s : Sys) (i : Nat) (p : Proc) : (setP s i p).mbx = s.mbx := rfl
+
+theorem getP_setP_same (s : Sys) (i : Nat) (p : Proc) (hi : i < s.procs.length) : getP (setP s i p) i = p := by
+  simp [getP, setP, List.getD, hi]
+
+theorem getP_setP_ne (s : Sys) (i j : Nat) (p : Proc) (h : j ≠ i) : getP (setP s i p) j = getP s j := by
+  simp [getP, setP, List.getD, List.getElem?_set_ne (Ne.symm h)]
+
+theorem getP_setP (s : Sys) (i j : Nat) (p : Proc) (hi : i < s.procs.length) :
+    getP (setP s i p) j = if j = i then p else getP s j := by
+  by_cases h : j = i
+  · subst h; simp [getP_setP_same _ _ _ hi]
+  · simp [h, getP_setP_ne _ _ _ _ h]
 
 /-! ### full-strength statements -/
 
@@ -68,6 +93,160 @@ theorem installed_while_running_refuted : ¬ installed_while_running := by
   intro h
   have := installedB_sound _ (h raceCfgs none raceSched (by decide))
   revert this
-  decide
+  decide +kernel
+
+/-- create-then-initialise window of the FMMU bitmap: participant 0 creates the file (10 operations, the
+last one `os.open(… O_EXCL)`); participant 1 finds an empty file, repairs it and takes process number 7;
+participant 0's unlocked initialising `os.write` wipes that bit; participant 2 is given number 7 as well. -/
+def windowCfgs : List Cfg :=
+  [{}, { etDraws := [12288], fmDraws := [7] }, { etDraws := [12288, 12289], fmDraws := [7] }]
+def windowSched : List Nat :=
+  List.replicate 10 0 ++ List.replicate 16 1 ++ [0] ++ List.replicate 15 2
+
+/-- `get_next_addr` has no upper bound: after `fmWindow / fmGroup` calls participant 0 (process number 1)
+holds an address inside the window of process number 2, which participant 1 owns; the bitmap file was
+initialised by participant 0 long before participant 1 opened it. -/
+def overflowCfgs : List Cfg := [{ nAddr := fmWindow / fmGroup }, { etDraws := [12288], fmDraws := [2] }]
+def overflowSched : List Nat := List.replicate 11 0 ++ List.replicate 14 1
+
+theorem fmmu_windows_disjoint_refuted : ¬ fmmu_windows_disjoint := by
+  intro h
+  have := windowsDisjointB_sound _ (h windowCfgs none windowSched (by decide))
+  revert this
+  decide +kernel
+
+/-- the second, independent way the clause fails (no concurrent creation involved) -/
+theorem fmmu_windows_overflow_refuted :
+    ¬ FmmuWindowsDisjoint (run (init overflowCfgs none) overflowSched) := by
+  intro h
+  have := windowsDisjointB_sound _ h
+  revert this
+  decide +kernel
+
+/-! ### the invariant behind `ethertypes_distinct` and `single_installer` -/
+
+theorem getP_congr {s1 s : Sys} (h : s1.procs = s.procs) (j : Nat) : getP s1 j = getP s j := by
+  simp [getP, h]
+
+def _root_.Ebv.Parallel.Pc.late : Pc → Bool
+  | .attach | .objPin => true
+  | _ => false
+
+structure Inv (s : Sys) : Prop where
+  nofault : ∀ i, i < s.procs.length → (getP s i).attachFails = false
+  mem : ∀ i, i < s.procs.length → (getP s i).pc.member = true →
+    ∃ ms, s.lockdir = some ms ∧ ((getP s i).et, i) ∈ ms
+  dist : EthertypesDistinct s
+  single : SingleInstaller s
+  pinFree : ∀ i, i < s.procs.length → (getP s i).pc.late = true → s.pin = none
+  noRmtree : ∀ i, i < s.procs.length → (getP s i).pc ≠ .excRmtree
+
+/-- an operation of participant `i` that leaves the lock directory alone, does not create the pin, and
+does not make `i` a member / installer if it was not one -/
+theorem inv_local {s : Sys} (hI : Inv s) {i : Nat} (hi : i < s.procs.length) (s1 : Sys) (p' : Proc)
+    (hpr : s1.procs = s.procs) (hl : s1.lockdir = s.lockdir) (hp : s1.pin = s.pin ∨ s1.pin = none)
+    (hf : p'.attachFails = (getP s i).attachFails)
+    (hm : p'.pc.member = true → (getP s i).pc.member = true ∧ p'.et = (getP s i).et)
+    (hin : p'.pc.install = true → (getP s i).pc.install = true)
+    (hlate : p'.pc.late = true → (getP s i).pc.late = true ∨ s1.pin = none)
+    (hnr : p'.pc ≠ .excRmtree) : Inv (setP s1 i p') := by
+  have hi1 : i < s1.procs.length := by rw [hpr]; exact hi
+  have hg : ∀ j, getP (setP s1 i p') j = if j = i then p' else getP s j := by
+    intro j; rw [getP_setP _ _ _ _ hi1]; split <;> simp [getP_congr hpr]
+  have hlen : (setP s1 i p').procs.length = s.procs.length := by simp [hpr]
+  refine ⟨?_, ?_, ?_, ?_, ?_, ?_⟩
+  · intro j hj; rw [hg]; rw [hlen] at hj
+    split
+    · next h => subst h; rw [hf]; exact hI.nofault _ hj
+    · exact hI.nofault _ hj
+  · intro j hj hmj; rw [hlen] at hj; rw [hg] at hmj ⊢
+    simp only [setP_lockdir, hl]
+    split at hmj
+    · next h =>
+      subst h; simp only [if_true]
+      obtain ⟨h1, h2⟩ := hm hmj
+      rw [h2]; exact hI.mem _ hj h1
+    · next h => simp only [h, if_false]; exact hI.mem _ hj hmj
+  · intro a b ha hb hab hma hmb
+    rw [hlen] at ha hb; rw [hg] at hma hmb ⊢; rw [hg]
+    by_cases h1 : a = i <;> by_cases h2 : b = i <;> simp only [h1, h2, if_true, if_false] at hma hmb ⊢
+    · exact absurd (h1.trans h2.symm) hab
+    · obtain ⟨m1, e1⟩ := hm hma; rw [e1]; exact hI.dist i b hi hb (by omega) m1 hmb
+    · obtain ⟨m1, e1⟩ := hm hmb; rw [e1]; exact hI.dist a i ha hi (by omega) hma m1
+    · exact hI.dist a b ha hb hab hma hmb
+  · intro a b ha hb hab
+    rw [hlen] at ha hb; rw [hg, hg]
+    by_cases h1 : a = i <;> by_cases h2 : b = i <;> simp only [h1, h2, if_true, if_false]
+    · exact absurd (h1.trans h2.symm) hab
+    · intro ⟨x, y⟩; exact hI.single i b hi hb (by omega) ⟨hin x, y⟩
+    · intro ⟨x, y⟩; exact hI.single a i ha hi (by omega) ⟨x, hin y⟩
+    · exact hI.single a b ha hb hab
+  · intro j hj hlj; rw [hlen] at hj; rw [hg] at hlj
+    simp only [setP_pin]
+    split at hlj
+    · rcases hlate hlj with h | h
+      · rcases hp with e | e
+        · rw [e]; exact hI.pinFree _ hi h
+        · exact e
+      · exact h
+    · rcases hp with e | e
+      · rw [e]; exact hI.pinFree _ hj hlj
+      · exact e
+  · intro j hj; rw [hlen] at hj; rw [hg]
+    split
+    · exact hnr
+    · exact hI.noRmtree _ hj
+
+theorem install_member (pc : Pc) (h : pc.install = true) : pc.member = true := by
+  cases pc <;> simp_all [Pc.install, Pc.member]
+theorem late_install (pc : Pc) (h : pc.late = true) : pc.install = true := by
+  cases pc <;> simp_all [Pc.install, Pc.late]
+
+/-- nobody holds a member file (lock directory absent or empty): `rename` succeeds / `rmdir` succeeds -/
+theorem inv_nomem {s : Sys} (hI : Inv s) {i : Nat} (hi : i < s.procs.length) (s1 : Sys) (p' : Proc)
+    (hpr : s1.procs = s.procs) (hp : s1.pin = s.pin ∨ s1.pin = none)
+    (hno : ∀ j, j < s.procs.length → (getP s j).pc.member = false)
+    (hf : p'.attachFails = (getP s i).attachFails)
+    (hm : p'.pc.member = true → s1.lockdir = some [(p'.et, i)])
+    (hlate : p'.pc.late = false) (hnr : p'.pc ≠ .excRmtree) : Inv (setP s1 i p') := by
+  have hi1 : i < s1.procs.length := by rw [hpr]; exact hi
+  have hg : ∀ j, getP (setP s1 i p') j = if j = i then p' else getP s j := by
+    intro j; rw [getP_setP _ _ _ _ hi1]; split <;> simp [getP_congr hpr]
+  have hlen : (setP s1 i p').procs.length = s.procs.length := by simp [hpr]
+  have hnoI : ∀ j, j < s.procs.length → (getP s j).pc.install = false := by
+    intro j hj; cases h : (getP s j).pc.install
+    · rfl
+    · have := install_member _ h; rw [hno j hj] at this; cases this
+  refine ⟨?_, ?_, ?_, ?_, ?_, ?_⟩
+  · intro j hj; rw [hg]; rw [hlen] at hj
+    split
+    · next h => subst h; rw [hf]; exact hI.nofault _ hj
+    · exact hI.nofault _ hj
+  · intro j hj hmj; rw [hlen] at hj; rw [hg] at hmj ⊢
+    split at hmj
+    · next h => subst h; simp only [if_true, setP_lockdir]; exact ⟨_, hm hmj, by simp⟩
+    · rw [hno j hj] at hmj; cases hmj
+  · intro a b ha hb hab hma hmb
+    rw [hlen] at ha hb; rw [hg] at hma hmb
+    by_cases h1 : a = i <;> by_cases h2 : b = i <;> simp only [h1, h2, if_true, if_false] at hma hmb
+    · exact absurd (h1.trans h2.symm) hab
+    · rw [hno b hb] at hmb; cases hmb
+    · rw [hno a ha] at hma; cases hma
+    · rw [hno b hb] at hmb; cases hmb
+  · intro a b ha hb hab
+    rw [hlen] at ha hb; rw [hg, hg]
+    by_cases h1 : a = i <;> by_cases h2 : b = i <;> simp only [h1, h2, if_true, if_false]
+    · exact absurd (h1.trans h2.symm) hab
+    · intro ⟨_, y⟩; rw [hnoI b hb] at y; cases y
+    · intro ⟨x, _⟩; rw [hnoI a ha] at x; cases x
+    · intro ⟨x, _⟩; rw [hnoI a ha] at x; cases x
+  · intro j hj hlj; rw [hlen] at hj; rw [hg] at hlj
+    split at hlj
+    · rw [hlate] at hlj; cases hlj
+    · have := late_install _ hlj; rw [hnoI j hj] at this; cases this
+  · intro j hj; rw [hlen] at hj; rw [hg]
+    split
+    · exact hnr
+    · exact hI.noRmtree _ hj
 
 end Ebv.C23
